@@ -7,6 +7,11 @@
 (*                        program.GetProgramInfo, signature.Verify /        *)
 (*                        VerifyMultiSignature, types.AddressFromPubKey /   *)
 (*                        AddressFromMultiPubKeys, payer test, SignedAddr)  *)
+(*   GetSignatureAddressesEarly = somebody asks the still UNVERIFIED object *)
+(*                        for its signers (tx pool sender-limit check):     *)
+(*                        SignedAddr is filled lazily from the scripts      *)
+(*   VerifyAgain        = the same object is offered to the validator a     *)
+(*                        second time after it was rejected                 *)
 (*   Mutate*            = an adversary changes the bytes of an accepted     *)
 (*                        transaction (signed content, a signature, payer)  *)
 (*   ExecFresh          = another node decodes the same bytes afresh (block *)
@@ -37,7 +42,10 @@ CONSTANTS TxSpace,            \* the transactions the environment may submit
           EthKeys,            \* abstract keys bound to Ethereum-type (PK_ETHECDSA) keys
           MaskByPosition,
           RawScriptFallback,
-          MutClasses          \* subset of {"content", "sig", "payer"}
+          MutClasses,         \* subset of {"content", "sig", "payer"}
+          PreOps,             \* subset of {"query", "reverify"}: operations on the object before (re-)verification
+          SkipIfSignedAddr    \* named deviation (FALSE = the code): the validator treats a non-empty SignedAddr as
+                              \* "already verified" and accepts without looking at the signatures
 
 VARIABLES tx,        \* the transaction under consideration
           phase,     \* "idle" | "submitted" | "verified" | "executed"
@@ -45,12 +53,14 @@ VARIABLES tx,        \* the transaction under consideration
           signed,    \* tx.SignedAddr as established by the validator (set of addresses)
           raw,       \* signer set seen by a node that decoded the bytes afresh
           mutated,   \* "" or the class of the mutation applied to an accepted transaction
+          pre,       \* history of this Transaction object: "fresh" | "queried" (GetSignatureAddresses was called
+                     \* before verification) | "reverify" (a first VerifyTransaction rejected it)
           facts,     \* what VerifyTransaction established about tx in one pass (see Analyze), incl. ghost property facts
           act        \* last action (history)
 
-vars == <<tx, phase, verdict, signed, raw, mutated, facts, act>>
+vars == <<tx, phase, verdict, signed, raw, mutated, pre, facts, act>>
 State == [tx |-> tx, phase |-> phase, verdict |-> verdict, signed |-> signed, raw |-> raw, mutated |-> mutated,
-          facts |-> facts]
+          pre |-> pre, facts |-> facts]
 
 NoTx == [payer |-> [kind |-> "none", i |-> 0], sets |-> <<>>]
 IsEth(k) == k \in EthKeys
@@ -128,27 +138,44 @@ Analyze(t) ==
 NoFacts == [accept |-> FALSE, signers |-> {}, raw |-> {}, txok |-> FALSE, dup |-> FALSE, exact |-> FALSE, canon |-> FALSE]
 
 -----------------------------------------------------------------------------
-Init == /\ tx = NoTx /\ phase = "idle" /\ verdict = FALSE /\ signed = {} /\ raw = {} /\ mutated = "" /\ facts = NoFacts
+Init == /\ tx = NoTx /\ phase = "idle" /\ verdict = FALSE /\ signed = {} /\ raw = {} /\ mutated = "" /\ pre = "fresh" /\ facts = NoFacts
         /\ act = [name |-> "Init"]
 
 Submit(t) ==
     /\ phase = "idle"
     /\ tx' = t /\ phase' = "submitted"
-    /\ UNCHANGED <<verdict, signed, raw, mutated, facts>>
+    /\ UNCHANGED <<verdict, signed, raw, mutated, pre, facts>>
     /\ act' = [name |-> "Submit"]
 
 VerifyTransaction ==
     /\ phase = "submitted"
     /\ facts' = Analyze(tx)                              \* evaluated once; the other variables read it
-    /\ verdict' = facts'.accept
-    /\ signed' = IF facts'.accept THEN facts'.signers ELSE {}
+    /\ IF SkipIfSignedAddr /\ signed # {}
+       THEN verdict' = TRUE /\ signed' = signed          \* deviation: "already verified"
+       ELSE /\ verdict' = facts'.accept                   \* the verdict is a function of the bytes only
+            /\ signed' = IF facts'.accept THEN facts'.signers ELSE signed
     /\ phase' = "verified"
-    /\ UNCHANGED <<tx, raw, mutated>>
+    /\ UNCHANGED <<tx, raw, mutated, pre>>
     /\ act' = [name |-> "VerifyTransaction"]
+
+\* Transaction.GetSignatureAddresses on the not yet verified object: SignedAddr is filled from the scripts
+GetSignatureAddressesEarly ==
+    /\ phase = "submitted" /\ pre = "fresh" /\ mutated = "" /\ "query" \in PreOps
+    /\ signed' = Analyze(tx).raw
+    /\ pre' = "queried"
+    /\ UNCHANGED <<tx, phase, verdict, raw, mutated, facts>>
+    /\ act' = [name |-> "GetSignatureAddressesEarly"]
+
+\* the rejected object is handed to the validator again
+VerifyAgain ==
+    /\ phase = "verified" /\ ~verdict /\ pre = "fresh" /\ mutated = "" /\ "reverify" \in PreOps
+    /\ phase' = "submitted" /\ pre' = "reverify"
+    /\ UNCHANGED <<tx, verdict, signed, raw, mutated, facts>>
+    /\ act' = [name |-> "VerifyAgain"]
 
 \* mutations are applied to accepted transactions in builder shape only; the mutated bytes are decoded
 \* into a new Transaction object (verdict and SignedAddr start afresh)
-MutEnabled(c) == phase = "verified" /\ verdict /\ mutated = "" /\ c \in MutClasses /\ facts.exact
+MutEnabled(c) == phase = "verified" /\ verdict /\ mutated = "" /\ pre = "fresh" /\ c \in MutClasses /\ facts.exact
 
 StaleSigs(sigs) == [j \in DOMAIN sigs |-> IF sigs[j].kind = "g" THEN Stale(sigs[j].by) ELSE sigs[j]]
 
@@ -156,7 +183,7 @@ StaleSigs(sigs) == [j \in DOMAIN sigs |-> IF sigs[j].kind = "g" THEN Stale(sigs[
 MutateContent ==
     /\ MutEnabled("content")
     /\ tx' = [tx EXCEPT !.sets = [i \in DOMAIN tx.sets |-> [tx.sets[i] EXCEPT !.sigs = StaleSigs(@)]]]
-    /\ phase' = "submitted" /\ mutated' = "content"
+    /\ phase' = "submitted" /\ mutated' = "content" /\ pre' = "fresh"
     /\ verdict' = FALSE /\ signed' = {} /\ facts' = NoFacts /\ UNCHANGED raw
     /\ act' = [name |-> "MutateContent"]
 
@@ -165,7 +192,7 @@ MutatePayer ==
     /\ MutEnabled("payer")
     /\ tx' = [payer |-> [kind |-> "none", i |-> 0],
               sets |-> [i \in DOMAIN tx.sets |-> [tx.sets[i] EXCEPT !.sigs = StaleSigs(@)]]]
-    /\ phase' = "submitted" /\ mutated' = "payer"
+    /\ phase' = "submitted" /\ mutated' = "payer" /\ pre' = "fresh"
     /\ verdict' = FALSE /\ signed' = {} /\ facts' = NoFacts /\ UNCHANGED raw
     /\ act' = [name |-> "MutatePayer"]
 
@@ -174,20 +201,21 @@ MutateSig(i, j) ==
     /\ MutEnabled("sig")
     /\ i \in DOMAIN tx.sets /\ j \in DOMAIN tx.sets[i].sigs
     /\ tx' = [tx EXCEPT !.sets[i].sigs[j] = Corrupt(@.by)]
-    /\ phase' = "submitted" /\ mutated' = "sig"
+    /\ phase' = "submitted" /\ mutated' = "sig" /\ pre' = "fresh"
     /\ verdict' = FALSE /\ signed' = {} /\ facts' = NoFacts /\ UNCHANGED raw
     /\ act' = [name |-> "MutateSig", i |-> i, j |-> j]
 
 \* a node that did not validate the transaction executes it from the decoded bytes
 ExecFresh ==
-    /\ phase = "verified" /\ verdict /\ mutated = ""
+    /\ phase = "verified" /\ verdict /\ mutated = "" /\ pre = "fresh"
     /\ raw' = facts.raw
     /\ phase' = "executed"
-    /\ UNCHANGED <<tx, verdict, signed, mutated, facts>>
+    /\ UNCHANGED <<tx, verdict, signed, mutated, pre, facts>>
     /\ act' = [name |-> "ExecFresh"]
 
 \* everything except the environment's choice of a transaction
 Other == \/ VerifyTransaction
+         \/ GetSignatureAddressesEarly \/ VerifyAgain
          \/ MutateContent \/ MutatePayer
          \/ \E i \in 1..2, j \in 1..3 : MutateSig(i, j)
          \/ ExecFresh
@@ -205,6 +233,8 @@ Verified == phase \in {"verified", "executed"}
 Sound == (Verified /\ verdict) => facts.txok
 \* with the deviation on, every unsound acceptance is explained by a duplicated key in a script
 SoundUpToDupKeys == (Verified /\ verdict /\ ~facts.txok) => facts.dup
+\* the verdict is a function of the transaction bytes only, whatever was done with the object before
+VerdictPure == Verified => (verdict = facts.accept)
 \* C16, second half: a mutated accepted transaction is rejected
 MutatedRejected == (phase = "verified" /\ mutated # "") => ~verdict
 \* C17: what contract code sees on a fresh decode equals what the validator established
